@@ -80,6 +80,13 @@ class CompleteWorkflowHandler(StabilizeHandler[CompleteWorkflow]):
                 )
                 return
 
+            # A paused workflow is not completed behind the operator's back
+            # (PAUSED -> SUCCEEDED is not a transition): unpause() sends a new
+            # CompleteWorkflow once the workflow runs again.
+            if execution.status == WorkflowStatus.PAUSED:
+                logger.info("Execution %s is PAUSED - completion deferred until it is resumed", execution.id)
+                return
+
             # Determine final status
             status = self._determine_final_status(execution, message)
             if status is None:
